@@ -5,7 +5,7 @@
                        number of threads, every interleaving).
    Proofs: Pg/Proofs.v, Pg/ConcProofs.v. *)
 From Coq Require Import List NArith Bool.
-From RV Require Import Pg.Model Pg.Proofs.
+From RV Require Import Pg.Model Pg.Proofs Pg.Conc Pg.ConcProofs.
 Import ListNotations.
 Local Open Scope N_scope.
 
@@ -116,11 +116,73 @@ Qed.
 Theorem C11_inv_always : forall ops, inv (run ops).
 Proof. exact inv_run. Qed.
 
+(* ------------------------------------------------------------------------------------
+   Part 2: every interleaving of the lock sections (Pg/Conc.v): any number of concurrent
+   join/leave/monitor/demonitor calls with arbitrary arguments, any actor exits, any
+   schedule (list of labels, no bound)
+   ------------------------------------------------------------------------------------ *)
+
+(* the interleaving invariant (Appendix C: P2 in the direction clean-up relies on, P3, P5,
+   lock discipline) holds in every reachable state *)
+Theorem C11_conc_invariant : forall calls ls, cinv (crun (cinit calls) ls).
+Proof. exact cinv_crun. Qed.
+
+(* (4) no zombie, whatever was racing with the exit: once the clean-up block of an actor's
+   exit has finished (wait() returns only after that), the actor is in no members list, no
+   listener list, no world-listener list, its reverse index mentions nothing, no join in
+   flight has it among its accepted actors (so it cannot be added later), and its status is
+   published *)
+Theorem C11_no_zombie : forall calls ls a,
+  let c := crun (cinit calls) ls in
+  c_x c a = XDone ->
+  (forall k, ~ In a (mem_of (c_pg c) k)) /\
+  (forall k, ~ In a (lis_of (c_pg c) k)) /\
+  (forall s, ~ In a (world_of (c_pg c) s)) /\
+  (forall k, ~ In k (r_mem (rel_of (c_pg c) a))) /\
+  (forall k, ~ In k (r_gmon (rel_of (c_pg c) a))) /\
+  (forall s, ~ In s (r_wmon (rel_of (c_pg c) a))) /\
+  (forall t p k, nth_error (c_thr c) t = Some p -> holds p k -> ~ In a (accs p)) /\
+  p_dead (c_pg c) a = true.
+Proof. exact no_zombie_conc. Qed.
+
+(* an actor enters a join's accepted set only at a locked re-check that read "not stopping" *)
+Theorem C11_accepted_only_alive : forall t p c a,
+  In a (accs (fst (tstep t p c))) -> ~ In a (accs p) -> p_dead (c_pg c) a = false.
+Proof. exact accepted_only_alive. Qed.
+
+(* (3, concurrent form) whoever is in a forward list is recorded in the reverse index or in
+   the pending work of its own exit *)
+Theorem C11_forward_recorded : forall calls ls a k,
+  let c := crun (cinit calls) ls in
+  (In a (mem_of (c_pg c) k) -> In k (r_mem (rel_of (c_pg c) a)) \/ pend_m (c_x c a) k) /\
+  (In a (lis_of (c_pg c) k) -> In k (r_gmon (rel_of (c_pg c) a)) \/ pend_g (c_x c a) k).
+Proof. exact forward_recorded. Qed.
+
+(* OPEN (not proved at micro-step level; proved for sequential histories in Part 1, checked
+   on solo runs of the micro-step model by the correspondence check):
+   - C11_index_agree under interleavings: for every key whose entry is not held,
+       In g (index_of st s) <-> mem_of st (s,g) <> []            (Appendix C, P1);
+   - leak-freedom of actor_relations under interleavings: when the exit of a is XDone and all
+       threads are Done, p_rels a = None                          (Appendix C, P4);
+   - C11_notify_exact under interleavings ("at that time" = the listener list read inside the
+       locked section, world listeners read right after it). *)
+
 (* ---- statement pins ---- *)
 Check (C11_no_zombie_seq : forall ops1 ops2 a,
   let st := run (ops1 ++ OExit a :: ops2) in
   (forall k, ~ In a (mem_of st k)) /\ (forall k, ~ In a (lis_of st k)) /\
   (forall s, ~ In a (world_of st s)) /\ p_rels st a = None).
+Check (C11_no_zombie : forall calls ls a,
+  let c := crun (cinit calls) ls in
+  c_x c a = XDone ->
+  (forall k, ~ In a (mem_of (c_pg c) k)) /\
+  (forall k, ~ In a (lis_of (c_pg c) k)) /\
+  (forall s, ~ In a (world_of (c_pg c) s)) /\
+  (forall k, ~ In k (r_mem (rel_of (c_pg c) a))) /\
+  (forall k, ~ In k (r_gmon (rel_of (c_pg c) a))) /\
+  (forall s, ~ In s (r_wmon (rel_of (c_pg c) a))) /\
+  (forall t p k, nth_error (c_thr c) t = Some p -> holds p k -> ~ In a (accs p)) /\
+  p_dead (c_pg c) a = true).
 Check (C11_refines_set_step : forall st o, inv st ->
   forall k a, nmem a (mem_of (fst (step st o)) k) = sm (spec_step (abs st) o) k a).
 
@@ -149,6 +211,26 @@ Example ex_oracle_rejects :
     (run_views u pg0 [OJoin 1 1 [1]] ++ run_views u pg0 [OJoin 1 1 [1]]) = false.
 Proof. vm_compute. reflexivity. Qed.
 
+(* the race of the property, as a concrete schedule of the micro-step model: the join has
+   accepted actor 7 and holds the entry; 7 publishes Stopping and drains its reverse index;
+   its leave_all blocks on the entry; the join commits (7 is a member for a moment); the
+   exit removes it; at XDone 7 is nowhere *)
+Definition ex_sched : list label :=
+  [LT 0; LT 0; LT 0; LT 0; LX 7; LX 7; LX 7; LX 7; LX 7; LX 7; LT 0; LT 0; LX 7; LX 7; LX 7; LT 0; LT 0].
+Example ex_race_mid :
+  let c := crun (cinit [CJoin 1 1 [7]]) (firstn 12 ex_sched) in
+  mem_of (c_pg c) (1, 1) = [7] /\ p_dead (c_pg c) 7 = true /\ c_x c 7 = XL [(1, 1)].
+Proof. vm_compute. auto. Qed.
+Example ex_race_end :
+  let c := crun (cinit [CJoin 1 1 [7]]) ex_sched in
+  mem_of (c_pg c) (1, 1) = [] /\ c_x c 7 = XDone /\ p_rels (c_pg c) 7 = None /\ c_thr c = [Done]
+  /\ which_scoped_groups (c_pg c) 1 = [].
+Proof. vm_compute. auto. Qed.
+(* the exit really blocks while the join holds the entry *)
+Example ex_race_blocked :
+  c_x (crun (cinit [CJoin 1 1 [7]]) (firstn 10 ex_sched)) 7 = XL [(1, 1)].
+Proof. vm_compute. reflexivity. Qed.
+
 Print Assumptions C11_refines_set.
 Print Assumptions C11_refines_set_step.
 Print Assumptions C11_join_idempotent.
@@ -158,3 +240,7 @@ Print Assumptions C11_no_zombie_seq.
 Print Assumptions C11_never_added.
 Print Assumptions C11_notify_exact.
 Print Assumptions C11_inv_always.
+Print Assumptions C11_conc_invariant.
+Print Assumptions C11_no_zombie.
+Print Assumptions C11_accepted_only_alive.
+Print Assumptions C11_forward_recorded.
